@@ -129,6 +129,103 @@ def limits(ctx, prog):
            len(clamp) == 1 and clamp[0][1] and clamp[0][0] >= need, str([(k, o) for k, o, _ in clamp]))
 
 
+def fast_path_reserve(ctx, prog, pfx='C06'):
+    """retrieve() decodes a whole group without availability checks (NEED_FAST) when enough input is buffered.
+    NEED_FAST fetches whole 32-bit words whenever fewer than 32 bits are left, so one group of GROUP_SIZE codes of
+    up to MAX_CODE_LENGTH bits can fetch floor((GROUP_SIZE*MAX_CODE_LENGTH + 43)/32) = 32 words: the guard must imply
+    that many whole words are available, whatever the number of bits already in the buffer."""
+    import bounds
+    from irdb import reg_var_names
+    f = prog.func('decode', 'retrieve')
+    P = Prov(prog, f)
+    names = reg_var_names(f)
+    dom = cfg.dominators(f)
+    guards = []
+    for b in f.blocks.values():
+        t = b.term
+        if t.op != 'br' or len(t.extra['targets']) != 2:
+            continue
+        e = P.expr(t.ops[0])
+        lv = {names.get(x[1]) for x in P.leaves(e, expand_phi=False) if x[0] == 'phi'}
+        if not ({'limit', 'next'} <= lv):
+            continue
+        c, pol = peel_cond(e)
+        cn = cmp_norm(c)
+        if cn and cn[0] in ('eq', 'ne') and strip_casts(cn[1])[0] == 'phi' and strip_casts(cn[2])[0] == 'phi':
+            continue        # NEED(): next == limit
+        guards.append((b, t, e))
+    ctx.require(len(guards) == 1, 'retrieve(): expected exactly one fast-path guard over (limit, next), found %d' % len(guards))
+    b, t, e = guards[0]
+    # which successor is the fast path: the one whose region never suspends (no store to rs->state)
+    fast = None
+    for k, tg in enumerate(t.extra['targets']):
+        region = cfg.reachable(f, tg, removed_blocks=[b.name]) | {tg}
+        susp = any(i.op == 'store' and path_key(P.addr(i.ops[1])[2]).endswith('.state') for bn in region for i in f.blocks[bn].insns)
+        if not susp:
+            fast = k
+    ctx.require(fast is not None, 'retrieve(): cannot tell the fast path from the slow path')
+    need = (50 * 20 + 43) // 32
+    leaves = [x for x in P.leaves(e, expand_phi=False) if x[0] == 'phi']
+    bad = []
+    n = 0
+    for avail in range(0, 41):
+        for w in range(0, 64):
+            env = {}
+            for x in leaves:
+                nm = names.get(x[1])
+                env[('phi', x[1])] = {'next': 0x1000, 'limit': 0x1000 + 4 * avail, 'w': w}.get(nm, 0)
+            n += 1
+            try:
+                v = bounds.eval_expr(e, env) & 1
+            except KeyError as ex:
+                broken('retrieve(): fast-path guard not evaluable: %s' % ex)
+            taken_fast = (v == 1) == (fast == 0)
+            if taken_fast and avail < need:
+                bad.append((avail, w))
+    ctx.ob(pfx + '.fast_path', 'the unchecked group decoder of retrieve() is entered only when at least %d whole input '
+           'words are buffered (what one group can fetch)' % need, f.loc(t), not bad,
+           '%d (words available, bits buffered) cases' % n if not bad else
+           'entered with only %d words available (w=%d)' % min(bad), evals=n)
+
+
+def rand_index_rule(ctx, prog, pfx='C06'):
+    """derandomisation walks rand_table cyclically: index = (index + 1) mod 512, carried in a register wide enough"""
+    f = prog.func('decode', 'decode')
+    P = Prov(prog, f)
+    sites = [i for i in f.insns() if i.op == 'load' and addr_key(P.addr(i.ops[0])).startswith('G:decode:rand_table')]
+    ctx.require(len(sites) >= 1, 'decode(): rand_table is not used')
+    bad = []
+    for i in sites:
+        ix = P.addr(i.ops[0])[2][-1][1]
+        if not isinstance(ix, tuple):
+            bad.append('constant index')
+            continue
+        e = strip_ext(ix)
+        # accepted shapes: ((phi + 1) & 511) used directly, or a phi carrying exactly that value
+        def is_step(x):
+            x = strip_ext(x)
+            return x[0] == 'bin' and x[1] == 'and' and strip_casts(x[3]) == ('const', 511) and \
+                strip_ext(x[2])[0] == 'bin' and strip_ext(x[2])[1] == 'add' and strip_casts(strip_ext(x[2])[3]) == ('const', 1)
+        carrier = None
+        if is_step(e):
+            carrier = strip_ext(strip_ext(e[2])[2])
+        elif e[0] == 'phi':
+            carrier = e
+        if carrier is None or carrier[0] != 'phi':
+            bad.append('index %s is not (i + 1) & 511 over a loop-carried i' % render(e)[:60])
+            continue
+        bits = carrier[2].ty[1] if carrier[2].ty and carrier[2].ty[0] == 'int' else 0
+        inc = [strip_casts(x) for x, _ in P.phi_inputs(carrier)]
+        narrow = [x for x, _ in P.phi_inputs(carrier) if x[0] == 'trunc' and x[1] < 9]
+        steps = [x for x, _ in P.phi_inputs(carrier) if is_step(x) or (x[0] == 'trunc' and is_step(x[2]))]
+        if bits < 9 or narrow:
+            bad.append('the index is carried in %d bits: it wraps at %d, not at 512' % (bits, 1 << bits))
+        if not steps:
+            bad.append('the loop-carried index is not advanced by (i + 1) & 511')
+    ctx.ob(pfx + '.rand_index', 'derandomisation steps through rand_table modulo 512 with an index of at least 9 bits',
+           f.loc(sites[0]), not bad, '; '.join(bad))
+
+
 def rand_table_rule(ctx, prog):
     g = prog.module('decode').globals.get('rand_table')
     ctx.require(g is not None, 'decode.c: rand_table vanished')
@@ -187,6 +284,8 @@ def run(ctx):
     field_widths(ctx, prog)
     limits(ctx, prog)
     rand_table_rule(ctx, prog)
+    rand_index_rule(ctx, prog)
+    fast_path_reserve(ctx, prog)
     c15.table_rule(ctx, prog, pfx='C06')
     witnesses(ctx, prog)
     expandrules.reorder_obligations(ctx, prog, 'C06', parts=('size', 'write'))
